@@ -259,8 +259,11 @@ class CRS:
         if self._crs is other._crs:
             return True
 
-        if self._epsg and other._epsg:
-            return self._epsg == other._epsg
+        if self._epsg and other._epsg and self._epsg != other._epsg:
+            # different codes settle it; EQUAL codes do not (pyproj identifies e.g. a lon/lat proj4
+            # string with EPSG:4326 without holding the two equal) and the codes are looked up lazily,
+            # so answering from them would make == depend on what was asked of the objects before
+            return False
 
         if self._str == other._str:
             return True
